@@ -481,7 +481,7 @@ def expand_fns(text, root, record):
     return FNS_RE.sub(repl, text)
 
 
-BODY_RE = re.compile(r"^[ \t]*//@@[ \t]*body[ \t]*:[ \t]*(\S+)[ \t]*::[ \t]*(.*?)[ \t]*=>[ \t]*(\w+)[ \t]*(.*)$", re.M)
+BODY_RE = re.compile(r"^[ \t]*//@@[ \t]*body(\??)[ \t]*:[ \t]*(\S+)[ \t]*::[ \t]*(.*?)[ \t]*=>[ \t]*(\w+)[ \t]*(.*)$", re.M)
 
 
 ITEM_RE = re.compile(r"^[ \t]*//@@[ \t]*item[ \t]*:[ \t]*(\S+)[ \t]*::[ \t]*(.*?)[ \t]*$", re.M)
@@ -628,8 +628,16 @@ def expand_bodies(text, root, record):
     is replaced by the verbatim text of the function with only its name changed."""
 
     def repl(m):
-        rel, locator, newname, opts = m.group(1), m.group(2), m.group(3), m.group(4)
-        item = extract_item(rel, locator, root)
+        optional, rel, locator, newname, opts = m.group(1), m.group(2), m.group(3), m.group(4), m.group(5)
+        try:
+            item = extract_item(rel, locator, root)
+        except LookupError:
+            if optional:
+                # `body?:` -- a helper that may legitimately disappear: the callers' bodies then no longer name it
+                record.append({"source": ("src/" + rel) if not rel.startswith("src/") else rel, "item": locator,
+                               "sha256_of_source_span": None, "renamed_to": newname, "substitutions": ["optional item not present in the source: nothing copied"]})
+                return ""
+            raise
         h = sha256(item)
         name = locator.split("/")[-1].strip().split(" ", 1)[1]
         new = re.sub(r"\bfn\s+" + re.escape(name) + r"\b", "fn " + newname, item, count=1)
